@@ -59,10 +59,10 @@ Definition note_code (n : fnote) : ncode :=
   mkN (fk n) (fd n)
       (if isn || isd || isx then Some (fv n) else None)
       (Qred (fdur n))
-      (if (isn || isd) && negb (fo n =? 0) then Some (fo n) else None)
+      (if (isn || isd || isx) && negb (fo n =? 0) then Some (fo n) else None)
       (if isn then fmode n else None)
       (if isn then facc n else None)
-      (if isn || isx then (let f := amp_figure (famp n) in if ampfig_eqb f Fmf then None else Some f) else None)
+      (if isn || isx || isd then (let f := amp_figure (famp n) in if ampfig_eqb f Fmf then None else Some f) else None)
       (ftags n).
 
 Definition ncode_eqb (a b : ncode) : bool :=
